@@ -426,6 +426,21 @@ def analyse(fn, roles, prog, lib_roles=None, want_kinds=("W", "R"), callsite_goa
             for K in sorted(consts)[:6]:
                 cands.append((h, a, "leK", Lin.const(K) - Lin.atom(a)))
                 cands.append((h, a, "leK", Lin.const(K - 1) - Lin.atom(a)))
+        # an index compared with a loop-invariant bound inside the loop (`if (i == slen) ...`, `i < n`): candidate i <= bound
+        for bid in fn.loops[h]["blocks"]:
+            for i in fn.blocks[bid]["insts"]:
+                if i["op"] != "icmp":
+                    continue
+                try:
+                    la, lb = A.lin(i["ops"][0]), A.lin(i["ops"][1])
+                except Exception:
+                    continue
+                for (x, y) in ((la, lb), (lb, la)):
+                    if x is None or y is None:
+                        continue
+                    xs = [a for a in names if not a.startswith("off(") and x == Lin.atom(a)]
+                    if xs and not (set(y.atoms()) & set(names)) and not y.is_const():
+                        cands.append((h, xs[0], "leK", y - Lin.atom(xs[0])))
         offs = [a for a in names if a.startswith("off(")]
         ints = [a for a in names if not a.startswith("off(")]
         for a in offs:
@@ -780,6 +795,23 @@ def default_roles(fn):
                  ("buffer", "bufsize"), ("b1", "n"), ("b2", "n"), ("b1", "len"), ("b2", "len"), ("src", "count"), ("src", "n"), ("base", "basebos")):
         if b in pn and l in pn and not any(x[0] == b for x in r):
             r.append((b, l, None))
+    if not r and fn.internal:
+        # a file-local helper `f(T *p, size n)` extracted from an entry point (clearing the slack, filling a field): whatever it is called
+        # with, it may touch n elements from p -- an obligation inside the helper, and at every call site one on (pointer, n) like for the
+        # library's own clearing helpers
+        ptrs = [p for p in fn.j["params"] if p["ty"].endswith("*")]
+        ints = [p for p in fn.j["params"] if p["ty"] in ("i64", "i32")]
+        if len(ptrs) == 1 and len(ints) == 1 and len(fn.j["params"]) == 2 and not fn.j.get("vararg"):
+            nid = ints[0]["id"]
+            seeds = {nid}
+            for _ in range(3):
+                for i in fn.insts():
+                    if "id" in i and i["op"] in ("zext", "trunc", "mul", "shl") and i["ops"][0].get("id") in seeds:
+                        seeds.add(i["id"])
+            is_len = any(i["op"] == "phi" and i["_bb"] in fn.loops and any(x["v"].get("id") in seeds for x in i["incoming"]) for i in fn.insts()) or \
+                any(i["op"] == "call" and (i.get("callee") or "").startswith(("llvm.memset", "memset", "wmemset")) and len(i.get("args", ())) > 2 and i["args"][2].get("id") in seeds for i in fn.insts())
+            if is_len:
+                r.append((ptrs[0]["name"], ints[0]["name"], None))
     return r
 
 
